@@ -681,6 +681,28 @@ fn curve_rows(rows: &mut Vec<(String, RowFn)>) {
         eq("decaf cofactor", &limbs_int(<TC as CurveConfig>::COFACTOR), &N::one())?;
         eq("decaf cofactor inverse", &arkf::fr_int(&<TC as CurveConfig>::COFACTOR_INV), &N::one())
     })));
+    rows.push(("ark:CurveConfig::COFACTOR(the cofactor maps agree with the published constant)".into(), Box::new(move || {
+        use ark_ec::{AffineRepr, CurveGroup, Group};
+        type AE = decaf377::Element;
+        type AA = <AE as CurveGroup>::Affine;
+        let h = <TC as CurveConfig>::COFACTOR;
+        for k in [1u64, 2, 5, 77] {
+            let e = AE::GENERATOR.mul_bigint([k]);
+            let a: AA = e.into_affine();
+            let want = e.mul_bigint(h);
+            let enc = |x: &AE| x.vartime_compress().0;
+            if enc(&a.mul_by_cofactor_to_group()) != enc(&want) || enc(&a.mul_by_cofactor().into_group()) != enc(&want) {
+                return Err(format!("mul_by_cofactor([{k}]G) is not COFACTOR * [{k}]G"));
+            }
+            if enc(&a.mul_by_cofactor().mul_by_cofactor_inv().into_group()) != enc(&e) || enc(&a.mul_by_cofactor_inv().mul_by_cofactor().into_group()) != enc(&e) {
+                return Err(format!("mul_by_cofactor_inv does not undo mul_by_cofactor on [{k}]G"));
+            }
+            if enc(&a.clear_cofactor().into_group()) != enc(&want) {
+                return Err(format!("clear_cofactor([{k}]G) is not COFACTOR * [{k}]G (cofactor {:?})", h));
+            }
+        }
+        Ok(())
+    })));
     rows.push(("ark:TECurveConfig::GENERATOR".into(), Box::new(move || {
         let g = <TC as TECurveConfig>::GENERATOR;
         let p = crate::refmodel::Pt { x: arkf::fq_int(&g.x), y: arkf::fq_int(&g.y) };
